@@ -201,6 +201,7 @@ class Evaluator:
         self.trace_attr_stores = True
         self.assume = []         # extra facts (conditions known true)
         self.merge_ifs = True
+        self.raw_float = False   # keep +,-,*,/ as written (no normal form): used for IEEE-exactness rules
 
     # ------------------------------------------------------------------ path handling
     def reset_path(self, prefix):
@@ -1138,6 +1139,8 @@ class Evaluator:
         if op == "Not":
             return negate(self.truth(v))
         if op == "USub":
+            if self.raw_float and to_poly(v) is not None and not isinstance(v, Const):
+                return App("fneg", (v,))
             return neg(v) if to_poly(v) is not None else App("neg", (v,))
         if op == "UAdd":
             return v
@@ -1177,6 +1180,8 @@ class Evaluator:
             tb = b if is_boolish(b) else App("mask", (b,))
             return conj([ta, tb]) if op == "BitAnd" else disj([ta, tb])
         pa, pb = to_poly(a), to_poly(b)
+        if self.raw_float and pa is not None and pb is not None and op in ("Add", "Sub", "Mult", "Div"):
+            return App("f" + op, (a, b))
         if pa is None or pb is None:
             if isinstance(a, Tup) and op == "Add" and isinstance(b, V):
                 return Tup(list(a.items) + [Star(b)])
